@@ -1,150 +1,234 @@
 import ALV.Common.Json
 import ALV.Model.C10
+import ALV.Model.C10Call
+import ALV.Model.C12
 import ALV.Spec.C10
+import ALV.Spec.C10Call
 namespace ALV.Driver.C10
 open ALV ALV.J ALV.C10
 
-def optNat (j : Json) (k : String) : Except String (Option Nat) :=
+/-- reader / writer of the element type -/
+structure Codec (α : Type) where
+  rd : Json → Except String α
+  wr : α → Json
+
+def ratCodec : Codec Rat := ⟨getRat, ratToJson⟩
+
+/-- a Gaussian rational travels as `[re, im]` (or a bare rational) -/
+def gaussCodec : Codec ALV.C12.GRat :=
+  ⟨fun j => match j with
+     | Json.arr [r, i] => do pure ⟨← getRat r, ← getRat i⟩
+     | _ => do pure ⟨← getRat j, 0⟩,
+   fun g => Json.arr [ratToJson g.re, ratToJson g.im]⟩
+
+/-- the spelling of the `order` / `max_lag` argument: `"ord": {"k": "omitted|none|int|real", "v": …}`;
+    without `"ord"`: the field `key` (absent / null = omitted, else a natural number) -/
+def getOrd (j : Json) (key : String) : Except String OrdArg :=
+  match optField j "ord" with
+  | some o => do
+    let k ← getStr (← field o "k")
+    match k with
+    | "omitted" => pure .omitted
+    | "none" => pure .none
+    | "int" => do pure (.int (← getInt (← field o "v")))
+    | "real" => do
+      let fl := match optField o "py" with
+        | some (Json.str "frac") => false
+        | _ => true
+      pure (.real (← getRat (← field o "v")) fl)
+    | _ => throw s!"C10: bad order spelling {k}"
+  | none =>
+    match optField j key with
+    | none => pure .omitted
+    | some v => do pure (.int (← getNat v))
+
+def unstableRat (k : Rat) : Bool := decide ((1 : Rat) ≤ k) || decide (k ≤ -1)
+
+section gen
+variable {α : Type} [Add α] [Mul α] [Sub α] [Neg α] [Div α] [OfNat α 0] [OfNat α 1] [DecidableEq α]
+variable (cd : Codec α)
+
+def vals (l : List α) : Json := arr cd.wr l
+def table (t : List (List α)) : Json := arr (vals cd) t
+
+def optVals (j : Json) (k : String) : Except String (Option (List α)) :=
   match optField j k with
   | none => pure none
-  | some v => do pure (some (← getNat v))
-
-def optRats (j : Json) (k : String) : Except String (Option (List Rat)) :=
-  match optField j k with
-  | none => pure none
-  | some v => do pure (some (← getList getRat v))
-
-def table (t : List (List Rat)) : Json := arr rats t
+  | some v => do pure (some (← getList cd.rd v))
 
 /-- `(numerator, error)` or the predicted exception -/
-def filtJson : Except String (List Rat × Rat) → Json
-  | .ok (a, e) => Json.mkObj [("a", rats a), ("error", ratToJson e)]
+def filtJson : Except String (List α × α) → Json
+  | .ok (a, e) => Json.mkObj [("a", vals cd a), ("error", cd.wr e)]
   | .error k => Json.mkObj [("err", Json.str k)]
 
 /-- residuals i = 1..p of the Yule–Walker equations, the error they assign, a_0 -/
-def ywJson (r a : List Rat) (p : Nat) : Json :=
-  Json.mkObj [("res", rats ((List.range p).map fun i => neResidual r a p (i + 1))),
-              ("err_eq", ratToJson (predError r a p)),
-              ("a0", ratToJson (coef a 0)), ("len", natToJson a.length)]
+def ywJson (r a : List α) (p : Nat) : Json :=
+  Json.mkObj [("res", vals cd ((List.range p).map fun i => neResidual r a p (i + 1))),
+              ("err_eq", cd.wr (predError r a p)),
+              ("a0", cd.wr (coef a 0)), ("len", natToJson a.length)]
 
-def covJson (blk a : List Rat) (p : Nat) : Json :=
-  Json.mkObj [("res", rats ((List.range p).map fun i => covResidual blk a p (i + 1))),
-              ("err_eq", ratToJson (covResidual blk a p 0)),
-              ("energy", ratToJson (covEnergy a blk p)),
-              ("a0", ratToJson (coef a 0)), ("len", natToJson a.length)]
+def covJson (blk a : List α) (p : Nat) : Json :=
+  Json.mkObj [("res", vals cd ((List.range p).map fun i => covResidual blk a p (i + 1))),
+              ("err_eq", cd.wr (covResidual blk a p 0)),
+              ("energy", cd.wr (covEnergy a blk p)),
+              ("a0", cd.wr (coef a 0)), ("len", natToJson a.length)]
 
 /-- conditioning trace of the Levinson loop: for every pass m (until a zero divisor) the
     numerator `⟨A, z^-m⟩`, the divisor `⟨B, B⟩` and the coefficients of `A` before the pass.
-    Only used by the harness to decide the float regime / skip ill-conditioned float cases. -/
-def levTrace (r : List Rat) : Nat → Nat → List Rat → List Json
+    Only used by the harness to decide the float regime / the conditioning-aware tolerance. -/
+def levTrace (r : List α) : Nat → Nat → List α → List Json
   | 0, _, _ => []
   | fuel + 1, m, A =>
     let B := revShift m A
     let num := inner r A (delay m)
     let den := inner r B B
-    let item := Json.mkObj [("num", ratToJson num), ("den", ratToJson den), ("A", rats A)]
+    let item := Json.mkObj [("num", cd.wr num), ("den", cd.wr den), ("A", vals cd A)]
     if den = 0 then [item] else item :: levTrace r fuel (m + 1) (subScaled A (num / den) B)
 
-def unstableRat (k : Rat) : Bool := decide ((1 : Rat) ≤ k) || decide (k ≤ -1)
-
 /-- conditioning trace of the kcovar loop: `k`, `beta`, and all coefficients met -/
-def kcTrace (phi : List (List Rat)) (order : Nat) : List Json :=
+def kcTrace (unst : α → Bool) (phi : List (List α)) (order : Nat) : List Json :=
   (List.range order).filterMap fun n =>
-    match kcIter phi unstableRat n with
+    match kcIter phi unst n with
     | .error _ => none
     | .ok s =>
       let bm := coef s.beta n
       let num := innerM phi s.A (delay (n + 1))
-      some (Json.mkObj [("num", ratToJson num), ("beta", ratToJson bm),
-        ("A", rats s.A), ("B", arr rats s.B)])
+      some (Json.mkObj [("num", cd.wr num), ("beta", cd.wr bm),
+        ("A", vals cd s.A), ("B", arr (vals cd) s.B)])
 
-/-- one call of one of the modelled functions (the request of a single-call case) -/
-def handleCall (entry : String) (j : Json) : Except String Json := do
+/-- the dependency a ZeroDivisionError of kcovar exhibits (theorem `kcovar_zero_division_singular`):
+    the first `B_m` with `beta[m] = 0`, and its outputs on the window n = p..N−1 -/
+def kcDependency (unst : α → Bool) (blk : List α) (phi : List (List α)) (p : Nat) : Json :=
+  match (List.range p).findSome? (fun m =>
+      match kcIter phi unst m with
+      | .ok s => if coef s.beta m = 0 then some (s.B.getD m []) else none
+      | .error _ => none) with
+  | none => Json.null
+  | some b => Json.mkObj [("b", vals cd b),
+      ("window", vals cd ((List.range (blk.length - p)).map (winOut b blk p)))]
+
+/-- one call of one of the modelled functions (the request of a single-call case);
+    `kc` = `lpc.kcovar` of the element type, `unst` its exit test -/
+def handleCallGen (kc : List α → OrdArg → Except String (List α × α)) (unst : α → Bool)
+    (entry : String) (j : Json) : Except String Json := do
   match entry with
   | "acorr" =>
-    let blk ← getList getRat (← field j "blk")
-    let lag ← optNat j "max_lag"
-    let m := acorr blk lag
-    pure <| Json.mkObj [("model", rats m),
-      ("spec", rats ((List.range m.length).map (acorrAt blk)))]
+    let blk ← getList cd.rd (← field j "blk")
+    let o ← getOrd j "max_lag"
+    match acorrCall blk o with
+    | .error k => pure <| Json.mkObj [("model", Json.mkObj [("err", Json.str k)])]
+    | .ok m =>
+      pure <| Json.mkObj [("model", vals cd m),
+        ("spec", vals cd ((List.range m.length).map (acorrAt blk)))]
   | "lag_matrix" =>
-    let blk ← getList getRat (← field j "blk")
-    let lag ← optNat j "max_lag"
-    match lagMatrix blk lag with
+    let blk ← getList cd.rd (← field j "blk")
+    let o ← getOrd j "max_lag"
+    match lagMatrixCall blk o with
     | .error k => pure <| Json.mkObj [("model", Json.mkObj [("err", Json.str k)])]
     | .ok t =>
       let L := t.length - 1
-      pure <| Json.mkObj [("model", table t),
-        ("spec", table ((List.range t.length).map fun j => (List.range t.length).map fun i => lagAt blk L i j))]
+      pure <| Json.mkObj [("model", table cd t),
+        ("spec", table cd ((List.range t.length).map fun j => (List.range t.length).map fun i => lagAt blk L i j))]
   | "toeplitz" =>
-    let v ← getList getRat (← field j "vect")
-    pure <| Json.mkObj [("model", table (toeplitz v)),
-      ("spec", table ((List.range v.length).map fun a => (List.range v.length).map fun b =>
+    let v ← getList cd.rd (← field j "vect")
+    pure <| Json.mkObj [("model", table cd (toeplitz v)),
+      ("spec", table cd ((List.range v.length).map fun a => (List.range v.length).map fun b =>
                         coef v (adiff a b)))]
   | "levinson" =>
-    let r ← getList getRat (← field j "r")
-    let order ← optNat j "order"
-    let p := order.getD (r.length - 1)
-    let res := levinson r order
-    let implA ← optRats j "impl_a"
+    let r ← getList cd.rd (← field j "r")
+    let o ← getOrd j "order"
+    let p := callOrder r.length o
+    let res := levinsonCall r o
+    let implA ← optVals cd j "impl_a"
     let specM := match res with
-      | .ok (a, _) => ywJson r a p
+      | .ok (a, _) => ywJson cd r a p
       | .error _ => Json.null
     let specI := match implA with
-      | some a => ywJson r a p
+      | some a => ywJson cd r a p
       | none => Json.null
-    let r' := match order with
+    let r' := match o.toOption with
       | none => r
       | some q => zeroExt r q
-    pure <| Json.mkObj [("model", filtJson res), ("spec_model", specM), ("spec_impl", specI),
-      ("trace", Json.arr (levTrace r' p 1 [1]))]
+    pure <| Json.mkObj [("model", filtJson cd res), ("spec_model", specM), ("spec_impl", specI),
+      ("trace", Json.arr (levTrace cd r' p 1 [1]))]
   | "kautocor" =>
-    let blk ← getList getRat (← field j "blk")
-    let order ← optNat j "order"
-    let r := acorr blk order
-    let p := order.getD (blk.length - 1)
-    let res := kautocor blk order
-    let implA ← optRats j "impl_a"
+    let blk ← getList cd.rd (← field j "blk")
+    let o ← getOrd j "order"
+    let r := acorr blk o.toOption
+    let p := callOrder blk.length o
+    let res := kautocorCall blk o
+    let implA ← optVals cd j "impl_a"
     -- energies of a ± e_i/16 (i = 1..p): a minimiser is not improved by any of them
-    let bump (a : List Rat) (i : Nat) (d : Rat) : List Rat :=
+    let sixteenth : α := 1 / ((1 + 1) * (1 + 1) * (1 + 1) * (1 + 1))
+    let bump (a : List α) (i : Nat) (d : α) : List α :=
       (List.range (p + 1)).map fun j => coef a j + (if j = i then d else 0)
-    let one (a : List Rat) : Json := Json.mkObj [("yw", ywJson r a p), ("energy", ratToJson (energy a blk p)),
-      ("perturbed", rats ((List.range p).flatMap fun i =>
-        [energy (bump a (i + 1) (1/16)) blk p, energy (bump a (i + 1) (-1/16)) blk p]))]
+    let one (a : List α) : Json := Json.mkObj [("yw", ywJson cd r a p), ("energy", cd.wr (energy a blk p)),
+      ("perturbed", vals cd ((List.range p).flatMap fun i =>
+        [energy (bump a (i + 1) sixteenth) blk p, energy (bump a (i + 1) (-sixteenth)) blk p]))]
     let specM := match res with
       | .ok (a, _) => one a
       | .error _ => Json.null
     let specI := match implA with
       | some a => one a
       | none => Json.null
-    let r' := match order with
+    let r' := match o.toOption with
       | none => r
       | some q => zeroExt r q
-    pure <| Json.mkObj [("model", filtJson res), ("r", rats r), ("spec_model", specM), ("spec_impl", specI),
-      ("trace", Json.arr (levTrace r' p 1 [1]))]
+    pure <| Json.mkObj [("model", filtJson cd res), ("r", vals cd r), ("spec_model", specM), ("spec_impl", specI),
+      ("trace", Json.arr (levTrace cd r' p 1 [1]))]
   | "kcovar" =>
-    let blk ← getList getRat (← field j "blk")
-    let order ← optNat j "order"
-    let res := kcovar blk order
-    let p := order.getD (blk.length - 1)
-    let implA ← optRats j "impl_a"
+    let blk ← getList cd.rd (← field j "blk")
+    let o ← getOrd j "order"
+    let res := kc blk o
+    let p := callOrder blk.length o
+    let implA ← optVals cd j "impl_a"
     let specM := match res with
-      | .ok (a, _) => covJson blk a p
+      | .ok (a, _) => covJson cd blk a p
       | .error _ => Json.null
     let specI := match implA with
-      | some a => covJson blk a p
+      | some a => covJson cd blk a p
       | none => Json.null
-    let tr := match lagMatrix blk order with
-      | .ok phi => kcTrace phi (phi.length - 1)
-      | .error _ => []
-    pure <| Json.mkObj [("model", filtJson res), ("spec_model", specM), ("spec_impl", specI),
-      ("trace", Json.arr tr)]
+    let (tr, dep) := match lagMatrixCall blk o with
+      | .ok phi => (kcTrace cd unst phi (phi.length - 1),
+          match res with
+          | .error "ZeroDivisionError" => kcDependency cd unst blk phi p
+          | _ => Json.null)
+      | .error _ => ([], Json.null)
+    pure <| Json.mkObj [("model", filtJson cd res), ("spec_model", specM), ("spec_impl", specI),
+      ("trace", Json.arr tr), ("dep", dep)]
   | _ => throw s!"C10: unknown entry {entry}"
+
+end gen
+
+def setField (j : Json) (k : String) (v : Json) : Json :=
+  match j with
+  | .obj kv => .obj ((k, v) :: kv.filter (·.1 != k))
+  | _ => j
+
+/-- a call over the rationals; `lpc`: a strategy of the StrategyDict selected by name (`"name": null`:
+    the dict is called itself = default strategy), numpy absent -/
+def handleCall (entry : String) (j : Json) : Except String Json := do
+  match entry with
+  | "lpc" =>
+    let s? := match optField j "name" with
+      | none => some defaultStrategy
+      | some (Json.str n) => strategyOf n
+      | some _ => none
+    match s? with
+    | none => pure <| Json.mkObj [("strategy", Json.null)]
+    | some s =>
+      let blk ← getList getRat (← field j "blk")
+      let o ← getOrd j "order"
+      let base ← handleCallGen ratCodec kcovarCall unstableRat (if s = .kcovar then "kcovar" else "kautocor") j
+      let res := lpcCall noNumpy s blk o
+      pure <| setField (setField base "model" (filtJson ratCodec res)) "strategy" (Json.str s.name)
+  | _ => handleCallGen ratCodec kcovarCall unstableRat entry j
 
 /-- `history`: a sequence of calls; every call is answered by the model/spec of THAT CALL ALONE on
     the argument values the request carries for it (the harness sends the pristine values the
     caller holds at that moment): a result is a function of the argument values of its call, so the
-    payload of a history is the list of the single-call payloads, nothing is threaded between them. -/
+    payload of a history is the list of the single-call payloads, nothing is threaded between them.
+    `"elem": "gauss"`: the samples are Gaussian rationals (complex numbers). -/
 def handle (entry : String) (j : Json) : Except String Json := do
   match entry with
   | "history" =>
@@ -153,6 +237,9 @@ def handle (entry : String) (j : Json) : Except String Json := do
       let e ← getStr (← field c "entry")
       handleCall e c
     pure <| Json.mkObj [("calls", Json.arr outs)]
-  | _ => handleCall entry j
+  | _ =>
+    match optField j "elem" with
+    | some (Json.str "gauss") => handleCallGen gaussCodec kcovarCallNoOrder (fun _ => true) entry j
+    | _ => handleCall entry j
 
 end ALV.Driver.C10
